@@ -665,6 +665,60 @@ func Check(p Property, c *Ctx) int {
 	}
 	wg.Wait()
 
+	// Symptoms that rest on a wall-clock bound (something did not return, did not arrive, was not closed within
+	// N seconds) are load-sensitive: on a machine that is busy with other work a correct gateway can miss the bound.
+	// Now that all batches are done and nothing else of this run is executing, the cases of such a symptom - if it
+	// was seen in at most three cases of the run - are run again, each alone in a fresh process; a symptom none of
+	// whose cases recurs is reported as inconclusive (with the original message), never as a violation.  A defect that
+	// hangs or leaks does so again, or shows in more than three cases.
+	{
+		bySym := map[string][]int{}
+		for i := range all {
+			if all[i].Verdict == Violated && all[i].Case >= 0 && reTimingSymptom.MatchString(all[i].Symptom) {
+				bySym[all[i].Symptom] = append(bySym[all[i].Symptom], i)
+			}
+		}
+		syms := make([]string, 0, len(bySym))
+		for sym := range bySym {
+			syms = append(syms, sym)
+		}
+		sort.Strings(syms)
+		for _, sym := range syms {
+			idxs := bySym[sym]
+			if len(idxs) > 3 {
+				continue // seen in many cases of this run: not the odd missed deadline
+			}
+			recurred := false
+			tried := map[int]bool{}
+			for _, i := range idxs {
+				if len(tried) >= 3 || recurred {
+					break
+				}
+				cs := all[i].Case
+				if tried[cs] {
+					continue
+				}
+				tried[cs] = true
+				co := runChild(p, c, batch{cs, cs + 1}, 0, "alone", watchdog, false)
+				if co.crashed {
+					recurred = true
+				}
+				for _, r := range co.results {
+					if r.Verdict == Violated && reTimingSymptom.MatchString(r.Symptom) {
+						recurred = true
+					}
+				}
+			}
+			if !recurred {
+				for _, i := range idxs {
+					all[i].Verdict = Inconclusive
+					all[i].Message = "did not recur when the case was run alone after the other work of this run had ended (" + fmt.Sprint(len(tried)) + " case(s) re-run); first observation: " + all[i].Message
+					all[i].Symptom = "load-sensitive symptom did not recur alone: " + sym
+				}
+			}
+		}
+	}
+
 	all = append(all, regress...)
 	// race logs
 	races := ParseRaceLogs(filepath.Join(workDir(), "race", p.ID()))
@@ -694,6 +748,9 @@ func Check(p Property, c *Ctx) int {
 		"children_timed_out": inconclusiveChildren, "witnesses_replayed": witnessStill,
 	}, harnessRaces > 0)
 }
+
+// reTimingSymptom matches the symptoms that are decided by a wall-clock bound.
+var reTimingSymptom = regexp.MustCompile(`did-not-return|did not return|never-reached-upstream|events-lost|left-open|left-behind|still-open|not-closed|no answer|watchdog`)
 
 func tail(s string, n int) string {
 	if len(s) <= n {
